@@ -71,6 +71,59 @@ theorem race_free_good_classes (c : Nat) (hc : c ∈ goodClassIds) (tc : Thread 
   rw [List.all_eq_true] at h
   exact lockset_discipline_race_free accesses tc c (h c hc) pre mid post t1 t2 o f1 f2 hsingle hwf hconf hne
 
+/-- the same with spawn order discharged (`lockset_discipline_race_free_fork`): given Go's spawn
+    semantics and the meaning of the `pre`/`post` tags, what remains hypothetical for a good class of
+    the tree is `exemptNoFork` (fresh object, atomics, both before the same once-spawn, holder /
+    doneclose) -/
+theorem race_free_good_classes_fork (c : Nat) (hc : c ∈ goodClassIds) (tc : Thread → Nat)
+    (pre mid post : List Ev) (t1 t2 : Thread) (o f1 f2 : Nat)
+    (hsingle : SingletonThreads accesses tc
+      (pre ++ Ev.acc t1 (c, o) f1 :: (mid ++ Ev.acc t2 (c, o) f2 :: post)) (c, o))
+    (hwf : WF (pre ++ Ev.acc t1 (c, o) f1 :: (mid ++ Ev.acc t2 (c, o) f2 :: post)))
+    (hconf : Conforms accesses tc (pre ++ Ev.acc t1 (c, o) f1 :: (mid ++ Ev.acc t2 (c, o) f2 :: post)))
+    (hfwf : ForkWF (pre ++ Ev.acc t1 (c, o) f1 :: (mid ++ Ev.acc t2 (c, o) f2 :: post)))
+    (hfc : ForkConforms accesses (pre ++ Ev.acc t1 (c, o) f1 :: (mid ++ Ev.acc t2 (c, o) f2 :: post)))
+    (hne : t1 ≠ t2) :
+    ∃ a b, accesses[f1]? = some a ∧ accesses[f2]? = some b ∧
+      ((isWrite accesses a = false ∧ isWrite accesses b = false) ∨
+       LockOrdered pre (Ev.acc t1 (c, o) f1) mid t1 t2 ∨
+       (∃ (j : Nat) (t t' : Thread) (s : Nat), pre.length < j ∧ j < pre.length + 1 + mid.length ∧
+          (pre ++ Ev.acc t1 (c, o) f1 :: (mid ++ Ev.acc t2 (c, o) f2 :: post))[j]? = some (Ev.fork t t' s) ∧
+          Desc (pre ++ Ev.acc t1 (c, o) f1 :: (mid ++ Ev.acc t2 (c, o) f2 :: post)) s t2) ∨
+       exemptNoFork a b = true) := by
+  have h := discipline_holds
+  rw [List.all_eq_true] at h
+  exact lockset_discipline_race_free_fork accesses tc c (h c hc) pre mid post t1 t2 o f1 f2
+    hsingle hwf hconf hfwf hfc hne
+
+/-- spawn order AND publication order discharged (`lockset_discipline_race_free_ordered`): for a good
+    class of the tree what remains hypothetical is `exemptRest` (atomics / sync.Map, both before the
+    same once-spawn, holder / doneclose) -/
+theorem race_free_good_classes_ordered (c : Nat) (hc : c ∈ goodClassIds) (tc : Thread → Nat) (creator : Nat → Thread)
+    (pre mid post : List Ev) (t1 t2 : Thread) (o f1 f2 : Nat)
+    (hsingle : SingletonThreads accesses tc
+      (pre ++ Ev.acc t1 (c, o) f1 :: (mid ++ Ev.acc t2 (c, o) f2 :: post)) (c, o))
+    (hwf : WF (pre ++ Ev.acc t1 (c, o) f1 :: (mid ++ Ev.acc t2 (c, o) f2 :: post)))
+    (hconf : Conforms accesses tc (pre ++ Ev.acc t1 (c, o) f1 :: (mid ++ Ev.acc t2 (c, o) f2 :: post)))
+    (hfwf : ForkWF (pre ++ Ev.acc t1 (c, o) f1 :: (mid ++ Ev.acc t2 (c, o) f2 :: post)))
+    (hfc : ForkConforms accesses (pre ++ Ev.acc t1 (c, o) f1 :: (mid ++ Ev.acc t2 (c, o) f2 :: post)))
+    (hpw : PublishWF creator (pre ++ Ev.acc t1 (c, o) f1 :: (mid ++ Ev.acc t2 (c, o) f2 :: post)))
+    (hic : InitConforms accesses creator (pre ++ Ev.acc t1 (c, o) f1 :: (mid ++ Ev.acc t2 (c, o) f2 :: post)))
+    (hne : t1 ≠ t2) :
+    ∃ a b, accesses[f1]? = some a ∧ accesses[f2]? = some b ∧
+      ((isWrite accesses a = false ∧ isWrite accesses b = false) ∨
+       LockOrdered pre (Ev.acc t1 (c, o) f1) mid t1 t2 ∨
+       (∃ (j : Nat) (t t' : Thread) (s : Nat), pre.length < j ∧ j < pre.length + 1 + mid.length ∧
+          (pre ++ Ev.acc t1 (c, o) f1 :: (mid ++ Ev.acc t2 (c, o) f2 :: post))[j]? = some (Ev.fork t t' s) ∧
+          Desc (pre ++ Ev.acc t1 (c, o) f1 :: (mid ++ Ev.acc t2 (c, o) f2 :: post)) s t2) ∨
+       (∃ (j : Nat) (u : Thread), pre.length < j ∧ j < pre.length + 1 + mid.length ∧
+          (pre ++ Ev.acc t1 (c, o) f1 :: (mid ++ Ev.acc t2 (c, o) f2 :: post))[j]? = some (Ev.publish u o)) ∨
+       exemptRest a b = true) := by
+  have h := discipline_holds
+  rw [List.all_eq_true] at h
+  exact lockset_discipline_race_free_ordered accesses tc creator c (h c hc) pre mid post t1 t2 o f1 f2
+    hsingle hwf hconf hfwf hfc hpw hic hne
+
 /-! ## No use of a torn-down runner ("stale pointer") -/
 
 /-- Lean's evaluation of the stale-read rule over the regenerated table = the translator's -/
@@ -90,7 +143,11 @@ theorem no_stale_reads :
     tree's facts (a `live` fact's use follows a lookup under `loadedMu` kept since, a `valid` fact's
     use follows a nil re-check under `refMu` kept since; fresh runners and the C01 holder ordering
     as the hypothesis `Other`), no handler or scheduler path uses `model` / `llama` / `Options` /
-    `expireTimer` of a runner that `unload` has torn down. -/
+    `expireTimer` of a runner that `unload` has torn down.  The semantics' `lookup` guard ("only
+    runners that are not torn down are in the registry") is `registry_entries_are_open` below (C01's
+    invariant for the tree's variant), its `clear` guard is `teardown_locks`; `hother`'s holder half is
+    `holder_runner_not_closed_while_used`, its fresh-object half stays a hypothesis.  Not modelled:
+    `unloadAllRunners` closes `llama` at server shutdown without clearing the field (no `clear` event). -/
 theorem no_use_of_torn_down_runner (G : Lock) (S : Nat → Lock) (Other : List LEv → Thread → Nat → Prop)
     (hother : ∀ pre t o s, lrun G S LState.init pre = some s → Other pre t o → s.cleared o = false)
     (tr : List LEv) (hconf : UseConforms accesses clearedClassIds 1 G S Other tr)
@@ -101,14 +158,32 @@ theorem no_use_of_torn_down_runner (G : Lock) (S : Nat → Lock) (Other : List L
     tr hconf pre post t o f htr s hrun
 
 /-- the guards of the life-cycle semantics' `clear` step hold in the tree: every clearing write
-    holds the runner's own lock, the registry's insert/delete hold the registry lock, and there
-    is something to protect -/
+    holds the runner's own lock, the registry's insert/delete hold the registry lock, and the three
+    pointer fields `PsHandler` and the scheduler dereference (`llama`, `model`, `Options`) are cleared
+    classes ALL of whose writes hold `loadedMu` (so `live` protects them; `expireTimer` is protected
+    by `valid` only) -/
 theorem teardown_locks :
     clearedClassIds.all (fun c => writesHold accesses c objectLockRef) = true ∧
     writesHold accesses registryClassId registryLockRef = true ∧
     hasInsert accesses registryClassId = true ∧
-    (clearedClassIds.filter (fun c => writesHold accesses c registryLockRef)).length ≥ 3 := by
+    (["runnerRef.llama", "runnerRef.model", "runnerRef.Options"].all (fun n =>
+      clearedClassIds.contains (classNames.idxOf n) &&
+      writesHold accesses (classNames.idxOf n) registryLockRef)) = true := by
   refine ⟨by decide +kernel, by decide +kernel, by decide +kernel, by decide +kernel⟩
+
+/-! ## The `lookup` guard of the life-cycle semantics is C01's invariant
+
+  `lstep (.lookup t o)` is enabled only for objects that are not torn down: "the registry never holds
+  a torn-down runner".  For the scheduler variant the tree implements that is invariant Inv3.wf of the
+  C01 model, for every reachable state (C01's own correspondence check ties that model to sched.go;
+  `Tie.C01.expired_region_is_atomic` ties "unload and delete in one loadedMu section"). -/
+
+open OllamaVerif.Sched in
+theorem registry_entries_are_open {mr mq ds : Nat} {s : State}
+    (h : Reach OllamaVerif.Generated.C01.treeVariant (Sched.init mr mq ds) s) {p} (hp : p ∈ s.loaded) :
+    (s.runners p.2).closed = false := by
+  rw [OllamaVerif.Tie.C01.tree_variant_good] at h
+  exact ((OllamaVerif.Sched.reach_inv (OllamaVerif.Sched.inv_init mr mq ds) h).i3.wf p hp).2.2
 
 /-! ## The holder hypothesis (hb 1) is a theorem for the tree's scheduler variant
 
